@@ -47,10 +47,10 @@ def item_prune(repo, out):
         raise TranslateError('_prune_chunks: expected two while loops, found %d' % len(whiles))
     w1, w2 = whiles
     for w, guard, stmts, nm in (
-            (w1, 'start_chunk < len(chunks[axis])',
+            (w1, 'start_chunk < len(chunks[axis]) - 1',
              ['c = chunks[axis][start_chunk]', 'offset[axis] += c', 'start -= c', 'stop -= c', 'shape[axis] -= c',
               'start_chunk += 1'], 'first'),
-            (w2, 'stop_chunk > start_chunk',
+            (w2, 'stop_chunk > start_chunk + 1',
              ['stop_chunk -= 1', 'c = chunks[axis][stop_chunk]', 'shape[axis] -= c'], 'second')):
         t = w.test
         if not (isinstance(t, ast.BoolOp) and isinstance(t.op, ast.And) and len(t.values) == 2):
@@ -70,7 +70,7 @@ def item_prune(repo, out):
                  'assert step == 1', 'start_chunk = 0']
     if head != want_head:
         raise TranslateError('_prune_chunks: statements before the loops are %s' % head)
-    out.append('(* chunkstore._prune_chunks: the chunk c under test is dropped while ... *)')
+    out.append('(* chunkstore._prune_chunks: while more than one chunk is left, the chunk c under test is dropped if ... *)')
     out.append('Definition gen_prune_front_drop (c start : Z) : bool := %s.' % _cond(w1.test.values[1], 'first while'))
     out.append('Definition gen_prune_back_drop (c shape stop : Z) : bool := %s.' % _cond(w2.test.values[1], 'second while'))
 
